@@ -23,7 +23,6 @@ type vfC05Obs struct {
 	hashNoP uint64 // body hash with the publishTime value blanked
 }
 
-
 func TestVerifC05(t *testing.T) {
 	r := rep.New("C05")
 	r.Rule("case = (asset, cfg{type,ato,tsbd,start,periods,stop}) swept over increasing instants (both sides of every availability and window breakpoint over >= 2 loops, plus seeded instants); " +
